@@ -1107,12 +1107,8 @@ class PDFCIDFont(PDFFont):
                 raise PDFFontError("BaseFont is missing")
             self.basefont = "unknown"
         self.cidsysteminfo = dict_value(spec.get("CIDSystemInfo", {}))
-        cid_registry = resolve1(self.cidsysteminfo.get("Registry", b"unknown")).decode(
-            "latin1",
-        )
-        cid_ordering = resolve1(self.cidsysteminfo.get("Ordering", b"unknown")).decode(
-            "latin1",
-        )
+        cid_registry = self._cidsysteminfo_str("Registry")
+        cid_ordering = self._cidsysteminfo_str("Ordering")
         self.cidcoding = f"{cid_registry.strip()}-{cid_ordering.strip()}"
         self.cmap: CMapBase = self.get_cmap_from_spec(spec, strict)
 
@@ -1174,6 +1170,13 @@ class PDFCIDFont(PDFFont):
             widths = get_widths(list_value(spec.get("W", [])))
             default_width = spec.get("DW", 1000)
         PDFFont.__init__(self, descriptor, widths, default_width=default_width)
+
+    def _cidsysteminfo_str(self, key: str) -> str:
+        value = resolve1(self.cidsysteminfo.get(key, b"unknown"))
+        if not isinstance(value, bytes):
+            log.warning("CIDSystemInfo /%s is not a string: %r", key, value)
+            value = b"unknown"
+        return value.decode("latin1")
 
     def get_cmap_from_spec(self, spec: Mapping[str, Any], strict: bool) -> CMapBase:
         """Get cmap from font specification
